@@ -16,12 +16,23 @@
 """
 Service exception handling (WMS exceptions, XML, in_image, etc.).
 """
+import re
 from html import escape
 
 from mapproxy.response import Response
 from mapproxy.template import template_loader
 import mapproxy.service
 get_template = template_loader(mapproxy.service.__package__, 'templates')
+
+
+_invalid_xml_chars = re.compile('[\x00-\x08\x0b\x0c\x0e-\x1f\ufffe\uffff]')
+
+
+def escape_xml(msg):
+    """
+    Escape &<>"' and replace characters that are not allowed in XML documents.
+    """
+    return escape(_invalid_xml_chars.sub('\ufffd', msg))
 
 
 class RequestError(Exception):
@@ -132,7 +143,7 @@ class XMLExceptionHandler(ExceptionHandler):
             status_code = self.status_codes.get(request_error.code, self.status_code)
 
         # escape &<> in error message (e.g. URL params)
-        msg = escape(request_error.msg)
+        msg = escape_xml(request_error.msg)
         result = self.template.substitute(exception=msg,
                                           code=request_error.code)
         return Response(result, mimetype=self.mimetype, content_type=self.content_type,
@@ -167,7 +178,7 @@ class OWSExceptionHandler(XMLExceptionHandler):
             status_code = self.status_codes.get(request_error.code, self.status_code)
 
         # escape &<> in error message (e.g. URL params)
-        msg = escape(request_error.msg)
+        msg = escape_xml(request_error.msg)
         result = self.template.substitute(exception=msg,
                                           code=request_error.code, locator=request_error.locator)
         return Response(result, mimetype=self.mimetype, content_type=self.content_type,
